@@ -31,6 +31,7 @@ g(r, a) = a * exp(-r) + 1/(r+1)
 f(r, a, b) = g(r, a) - g(r, b) + a*b
 h(r, n) = if(n < 1, 1, h2(r, n-1) + n)
 h2(r, n) = h(r, n) * 1
+series(r, A, n) = var s := 0; while (n > 0) { s += A/r^n; n -= 1; }; s
 [Table-Form:tf]
 x : 0.0 1.0 2.0 3.0 4.0 6.0
 y : 5.0 3.0 2.0 1.5 1.2 1.0
@@ -41,6 +42,8 @@ U-U : spline(>0 as.zbl 92 92 >=0.8 exp_spline >=1.4 as.buck 294.64 0.327022 0.0)
 U-Zr : product(h 3, as.polynomial 1 0.5)
 Zr-Zr : as.buck4 1000.0 0.3 32.0 1.0 1.5 2.5
 Zr-O : >0 as.buck 1000.0 0.3 32.0 >2.0 as.zero
+O-Zr2 : series 2.0 3
+U-Zr2 : series 2.0 3
 """),
     # 3: a second file that re-uses the form names f and g with different bodies, and overrides a built-in element
     3: dict(targets=["LAMMPS", "setfl", "excel"], text="""[Potential-Form]
@@ -207,6 +210,48 @@ def api_reference(kind):
     tab = api_build(kind, api_energy_fn())
     data = write(tab, "LAMMPS")
     return dict(sha=hashlib.sha256(data).hexdigest(), cells=None, energies=energies(tab))
+
+
+def mutable_callable_history(run):
+    """a parametrised energy callable whose set_parameters() re-creates its .deriv closure (a fitting loop that re-tabulates the
+    same Potential objects): what is written is the model as it is when write() is called - energy and force columns from the
+    same parameters - whatever the parameters were when the Potential / tabulation objects were created"""
+    from atsim.potentials import Potential
+    from atsim.potentials.pair_tabulation import LAMMPS_PairTabulation, DLPoly_PairTabulation
+
+    class LJ(object):
+        def __init__(self, eps, sig):
+            self.set_parameters(eps, sig)
+
+        def set_parameters(self, eps, sig):
+            self.eps, self.sig = eps, sig
+            self.deriv = lambda r: 4.0 * eps * (-12.0 * sig ** 12 / r ** 13 + 6.0 * sig ** 6 / r ** 7)
+
+        def __call__(self, r):
+            return 4.0 * self.eps * ((self.sig / r) ** 12 - (self.sig / r) ** 6)
+
+    def table(cls, f, nr):
+        b = io.StringIO()
+        cls([Potential("A", "B", f)], 4.0, nr).write(b)
+        return b.getvalue()
+    n = 0
+    for cls, nr in ((LAMMPS_PairTabulation, 9), (DLPoly_PairTabulation, 12)):
+        want = table(cls, LJ(0.25, 1.5), nr)
+        f = LJ(0.1, 2.0)
+        pot = Potential("A", "B", f)
+        tab = cls([pot], 4.0, nr)
+        first = io.StringIO()
+        tab.write(first)                       # written once with the old parameters
+        f.set_parameters(0.25, 1.5)
+        b = io.StringIO()
+        tab.write(b)
+        n += 2
+        if b.getvalue() != want:
+            a, c = want.splitlines(), b.getvalue().splitlines()
+            first_diff = next(("line %d: %r, expected %r" % (i + 1, y, x) for i, (x, y) in enumerate(zip(a, c)) if x != y), "length differs")
+            run.violation(dict(engine="session", clause="output-differs", excel=False, same_cells=False, model="api-mutable"),
+                          "[output-differs] %s of a callable re-parametrised after the Potential was created: the table is not the one of a model built with the new parameters (%s)" % (cls.__name__, first_diff), dict(cls=cls.__name__))
+    return n
 
 
 def api_histories(run):
@@ -409,7 +454,7 @@ def main(prop, tier, seed):
                                   "[cli-vs-api] model %d for %s in one process: %s differ(s) from the fresh-process reference" % (mid, target, ", ".join(which)), dict(model=mid, target=target))
         finally:
             shutil.rmtree(d, ignore_errors=True)
-        napi = api_histories(run)
+        napi = api_histories(run) + mutable_callable_history(run)
         run.evaluations += napi
         run.notes["api_shared_callable_histories"] = napi
         for h in hist:
